@@ -266,9 +266,11 @@ def k_type_safety(ctx, target, foreign_type, route, variant=0):
             return make(name, {"entity_id": {"id": val.hex()}, "flow_label": {"label": val.hex()}, "msg_to_user": {"msg": val.hex()}}[name])[0]
         return make(name, p)[0]
 
+    # the generic TLV's type given as the enumeration member or as the plain number (TlvType is an IntEnum; both pack alike)
+    ft_arg = X.TlvType(foreign_type) if variant % 3 else int(foreign_type)
     fn = {"unpack": lambda: cls.unpack(raw),
-          "from_tlv": lambda: cls.from_tlv(X.CfdpTlv(X.TlvType(foreign_type), val)),
-          "holder_generic": lambda: getattr(X.TlvHolder(X.CfdpTlv(X.TlvType(foreign_type), val)), HOLDER[target])(),
+          "from_tlv": lambda: cls.from_tlv(X.CfdpTlv(ft_arg, val)),
+          "holder_generic": lambda: getattr(X.TlvHolder(X.CfdpTlv(ft_arg, val)), HOLDER[target])(),
           "holder_concrete": lambda: getattr(X.TlvHolder(foreign_concrete()), HOLDER[target])()}[route]
     ok, res = attempt(fn)
     ctx.ev("type_safety")
